@@ -65,7 +65,27 @@ def implOKB (m : NNet) : Bool :=
 end KV.Transform
 
 namespace KV.Transform
-/-- every substitution that `resolve_tlib_cells` performs along the key list is a regular use (`regularB`) of a
+/-- `remove_dangling_nodes(root, own)` returns at once: `root` has a connected output, is a port, is a state element or
+    does not belong to the substituted cell -/
+def keptRoot (nn : NNet) (own : List Nat) (root : Nat) : Bool :=
+  (nn.net.node root).outs.any (·.isSome) || nn.net.io.contains root || isSeqKind (nn.net.node root).kind || !(own.contains root)
+
+/-- use of `substitute` in which **nothing is removed** (includes regular use, `regularB`): the implementation has a
+    designated cell, every connected input pin of the instance belongs to an input port that has a reader, and every
+    unconnected output of the instance is driven by a node that stays (it has another connected output, is a state
+    element, …: `keptRoot`, evaluated on the circuit `substituteCore` builds).  Input pins may be unconnected. -/
+def keepsAllB (h : NNet) (c : Nat) (m : NNet) : Bool :=
+  match implShape m, substituteCore h c m with
+  | some sh, some (h5, map, dang) =>
+    sh.des.isSome &&
+    ((sh.inPorts.zip (padTo (h.net.node c).ins sh.inPorts.length)).all fun p =>
+      !p.2.isSome || !((m.net.node p.1).outs.length == 0)) &&
+    dang.all fun o => match o with
+      | none => true
+      | some root => keptRoot h5 (map.toList.filterMap id) root
+  | _, _ => false
+
+/-- every substitution that `resolve_tlib_cells` performs along the key list is a use in which nothing is removed (`keepsAllB`, e.g. regular use) of a
     well-formed implementation satisfying `implOKB`, the substituted node being neither a port nor a fork, and none of
     them raises (decidable: computed along the loop of `resolveCells`) -/
 def resolveOKB (lib : Lib) : List (String × Bool) → NNet → Bool
@@ -75,7 +95,7 @@ def resolveOKB (lib : Lib) : List (String × Bool) → NNet → Bool
     if i < cur.net.nodes.size then
       match lib.find (cur.net.node i).kind with
       | some impl =>
-        impl.wf && implOKB impl && regularB cur i impl && !(cur.net.io.contains i) && !((cur.net.node i).isFork) &&
+        impl.wf && implOKB impl && keepsAllB cur i impl && !(cur.net.io.contains i) && !((cur.net.node i).isFork) &&
           (match substitute cur i impl with
            | some nxt => resolveOKB lib rest nxt
            | none => false)
